@@ -800,6 +800,7 @@ func ruleLexMode(c *Ctx) {
 	}
 	// the digit class: a NUMBER starts and continues with ASCII 0-9 only (Unicode digits are symbol characters)
 	c.checkDigitClass()
+	c.checkRunStarts()
 	// setters store their argument
 	for _, s := range []struct{ fn, field string }{{"LexScanner.SetExpectSymbol", "expectSymbol"}, {"LexScanner.SetExpectMetadata", "expectMetadata"}} {
 		sf := c.fn("input/ast", s.fn)
@@ -1382,6 +1383,12 @@ func ruleConvOrder(c *Ctx) {
 // CLASSIFY
 
 func ruleClassify(c *Ctx) {
+	if fn := c.fn("astconv", "ASTTypeClassifier.degreeType"); fn != nil {
+		if problem, n, ok := c.degreeTypeByFolding(); ok {
+			c.site(1)
+			c.check(problem == "", "astconv.ASTTypeClassifier.degreeType|domain", c.pos(fn.Pos()), fname(fn), fmt.Sprintf("%d roots folded: a letter is a note name whatever its accidental, digits are a degree, anything else is unknown", n), fname(fn)+": "+problem)
+		}
+	}
 	fn := c.fn("cmd", "textCmdArgs.convert")
 	if fn == nil {
 		c.missing("cmd.textCmdArgs.convert")
@@ -1532,6 +1539,60 @@ func (c *Ctx) checkDigitClass() {
 		}
 	}
 	c.ok(key, c.pos(fn.Pos()), fname(fn), fmt.Sprintf("a number starts and continues exactly on ASCII 0-9 (%d probe runes incl. other Unicode digits, %d run predicate(s))", len(probes), len(preds)))
+}
+
+// checkRunStarts: a symbol run (scanSymbol) and a metadata run (scanMetadata) start exactly on the runes they continue
+// on: folded with Peek bound to every rune of the domain, the scanner answers `a token starts here` where its own run
+// predicate accepts the rune and nowhere else (a first-rune test copied from the twin scanner delivers an empty token
+// where the run cannot start, or refuses a rune the run may start with).
+func (c *Ctx) checkRunStarts() {
+	for _, sc := range []struct{ fn, pred, label string }{
+		{"LexScanner.scanSymbol", "LexScanner.isSymbolRune", "symbol"},
+		{"LexScanner.scanMetadata", "LexScanner.isMetadataRune", "metadata"},
+	} {
+		fn, pred := c.fn("input/ast", sc.fn), c.fn("input/ast", sc.pred)
+		if fn == nil || pred == nil {
+			continue
+		}
+		c.site(1)
+		key := fname(fn) + "|start"
+		problem := ""
+		decided := true
+		for _, r := range lexRuneDomain() {
+			rv := fval{k: constant.MakeInt64(int64(r)), t: types.Typ[types.Rune]}
+			pargs := []fval{rv}
+			if len(pred.Params) == 2 {
+				pargs = []fval{top, rv}
+			}
+			pv, err := c.newFolder().foldCall(pred, pargs)
+			if err != nil || pv.k == nil || pv.k.Kind() != constant.Bool {
+				decided = false
+				break
+			}
+			f := c.newFolder()
+			consumed := false
+			f.invoke = func(call *ssa.Call, args []fval) (fval, bool) {
+				if call.Call.Method.Name() == "Peek" && !consumed {
+					return rv, true
+				}
+				consumed = true
+				return top, false
+			}
+			res, err := f.foldCall(fn, []fval{top, top})
+			if err != nil || res.k == nil || res.k.Kind() != constant.Bool {
+				decided = false
+				break
+			}
+			if got, want := constant.BoolVal(res.k), constant.BoolVal(pv.k); got != want && problem == "" {
+				problem = fmt.Sprintf("at the rune %q a %s token starts=%v although the run predicate says %v: an empty token is delivered where no %s can stand (an underscore with nothing behind it is accepted), or a %s that starts with that rune is refused", r, sc.label, got, want, sc.label, sc.label)
+			}
+		}
+		if !decided {
+			c.undec(key, c.pos(fn.Pos()), fname(fn), "the scanner or its run predicate does not fold on the rune domain")
+			continue
+		}
+		c.check(problem == "", key, c.pos(fn.Pos()), fname(fn), fmt.Sprintf("a %s run starts exactly where it may continue (folded on %d runes)", sc.label, len(lexRuneDomain())), fname(fn)+": "+problem)
+	}
 }
 
 // returnsErrorOf: every return of the call's function yields the call's own error result.
